@@ -56,8 +56,16 @@ def part1(ex, tier, ev, fnd):
     for (c, sd), r, r2 in zip(cs, base, again):
         if r['rc'] != 0:
             fnd.report('build-failed cfg=' + cfgx.tag(c), r['out'][-400:], {'config': c._asdict()}); continue
-        if r['tree'] != r2['tree'] or sites_of(r['out']) != sites_of(r2['out']):
-            raise SystemExit('HARNESS ERROR: the all-default schedule replayed twice gave different observations for ' + cfgx.tag(c))
+        if r['tree'] != r2['tree']:
+            # same source tree (by Merkle root), same options, same owned schedule and hash seed, two different results:
+            # that is the property's negation whatever the hidden source of order is (e.g. a map keyed by pointers,
+            # whose order follows heap addresses the harness cannot own). No deviation is explored from here.
+            d = diff_trees(r['tree'], r2['tree'])
+            fnd.report('same-schedule-different-tree cfg=' + cfgx.tag(c), '%s: two runs of the same configuration under the same owned schedule (seed %d) give different trees; differing entries %s' % (cfgx.tag(c), sd, d[:5]),
+                       {'config': c._asdict(), 'seed': sd, 'differing': d[:20]})
+            continue
+        if sites_of(r['out']) != sites_of(r2['out']):
+            raise SystemExit('HARNESS ERROR: the all-default schedule replayed twice visited different choice points for ' + cfgx.tag(c))
         S = sites_of(r['out'])
         ev.sample({'config': cfgx.tag(c), 'choice_points': [{'site': s, 'entries': n, 'B': B, 'fn': fn.split('/')[-1]} for s, n, B, _, fn in S]}, cap=2)
         for s, n, B, _, fn in S:
